@@ -52,6 +52,53 @@ class RX(Packet):
     z = Int(1)
 
 
+def _local_classes():
+    """classes defined inside a function cannot be pickled: their prototypes are cloned by deep copy (another code path)"""
+    class LSub(Packet):
+        __bisturi__ = dict(OPTS)
+        n = Int(1)
+        objs = Int(1).repeated(n)
+
+    class LInner(Packet):
+        __bisturi__ = dict(OPTS)
+        bag = Ref(LSub)
+        w = Int(1)
+
+    class LOuter(Packet):
+        __bisturi__ = dict(OPTS)
+        box = Ref(LInner)
+        t = Int(1)
+    return LSub, LInner, LOuter
+
+
+LSub, LInner, LOuter = _local_classes()
+
+
+def local_prototypes(v: int, w: int, raw: bytes) -> str:
+    """prototype clones of unpicklable (function-local) classes: in-place changes of one packet's nested list / nested
+    packet never show in another packet built before or after"""
+    raw = fix(raw, 4)
+    one, two = LOuter(), LOuter()
+    before = (two.box.w, two.box.bag.n, list(two.box.bag.objs), two.t, two.pack())
+    one.box.bag.objs.append(v)
+    one.box.bag.n = 1
+    one.box.w = w
+    parsed = LOuter.unpack(raw, silent=True)
+    if parsed is not None:
+        parsed.box.bag.objs.append(v)
+        parsed.box.w = w
+    after = (two.box.w, two.box.bag.n, list(two.box.bag.objs), two.t, two.pack())
+    if before != after:
+        return "FAIL sig=C13|prototype-clone-shares-mutable-sub-object|bystander-changed before=%%r after=%%r" %% (before, after)
+    three = LOuter()
+    fresh = (three.box.w, three.box.bag.n, list(three.box.bag.objs), three.t, three.pack())
+    if fresh != before:
+        return "FAIL sig=C13|prototype-clone-shares-mutable-sub-object|later-packet-polluted %%r" %% (fresh,)
+    if one.box is two.box or one.box.bag is two.box.bag or one.box.bag.objs is two.box.bag.objs:
+        return "FAIL sig=C13|mutable-sub-object-shared|LOuter.box"
+    return "ok:unchanged"
+
+
 def obs_sub(v):
     return None if v is None else (v.x, v.y)
 
@@ -287,6 +334,12 @@ def build(tier, seed):
                             "decl_text": "A(h,n,p Bits; r Ref(Sub); s Int(1).repeated(n); d Data(until NUL); o Int(1).when(h==1)); "
                                          "B(r Ref(Sub(x=1,y=2)); lst repeated(2, default=[7,8]); Bits); RX(a; d Data(until re X+); z)"})
         src = SRC % dict(opts=opts, ops=[], la=la)
+        obs.append({"id": "C13/local-prototypes/%s" % gen, "module": "c13_local_%s" % gen, "source": src, "fn": "local_prototypes",
+                    "required_tags": ["unchanged"], "timeout": 240,
+                    "bound": "function-local (unpicklable) classes LOuter -> LInner -> LSub(list); two default packets, a parsed one from 4 "
+                             "symbolic bytes; in-place changes with symbolic values",
+                    "assertion": "the bystander and any packet constructed later are unchanged; no nested list / packet is shared",
+                    "decl_text": "LSub(n; objs=Int(1).repeated(n)); LInner(bag=Ref(LSub); w); LOuter(box=Ref(LInner); t)"})
         obs.append({"id": "C13/purity/%s" % gen, "module": "c13_purity_%s" % gen, "source": src, "fn": "purity",
                     "required_tags": ["pure"], "bound": "packets parsed from symbolic bytes (A: %d, B: 5, RX: 4) and default-constructed" % la,
                     "assertion": "three consecutive observations (fields + pack()) are identical; default lists / prototypes are fresh per instance",
